@@ -156,4 +156,97 @@ fn main() {
     }
     writeln!(pool, "  _ => panic!(\"pool index\") }} }}").unwrap();
     std::fs::write(out.join("c10_pool.rs"), pool).unwrap();
+    c10x_pool(&out);
+}
+
+/// C10 dimension audit (aC10): a second small pool generated through `CodeGenBuilder` with the
+/// remaining generator knobs — (package, name, methods, emit_package, use_arc_self,
+/// generate_default_stubs) — among them a service without methods, plus the other public
+/// constructors of the servers of the first pool (`with_interceptor`, `from_arc`, the
+/// compression / size-limit setters, `Clone`).  Written to `c10x_pool.rs` (included by
+/// `src/c10_x.rs` only).
+const XPOOL: &[(&str, &str, &[(&str, u8)], bool, bool, bool)] = &[
+    ("x", "Ark", &[("M", 0), ("N", 1), ("CS", 2), ("BD", 3)], true, true, false),
+    ("x", "Stub", &[("M", 0), ("N", 1), ("BD", 3)], true, false, true),
+    ("x", "Empty", &[], true, false, false),
+    ("x.Ark", "M", &[("M", 0)], false, true, true),
+    ("x", "Arks", &[("M", 0), ("m", 0)], true, false, false),
+];
+
+fn c10x_pool(out: &std::path::Path) {
+    let ty = "crate::c10::pool";
+    let base = POOL.len();
+    let mut x = String::new();
+    for (xi, (pkg, name, methods, emit, arc, stubs)) in XPOOL.iter().enumerate() {
+        let i = base + xi;
+        let mut sb = tonic_build::manual::Service::builder().name(name).package(pkg);
+        for (j, (route, kind)) in methods.iter().enumerate() {
+            let mut mb = tonic_build::manual::Method::builder()
+                .name(format!("m{j}"))
+                .route_name(route)
+                .input_type(format!("{ty}::Req"))
+                .output_type(format!("{ty}::Resp"))
+                .codec_path("tonic::codec::ProstCodec");
+            if *kind == 2 || *kind == 3 {
+                mb = mb.client_streaming();
+            }
+            if *kind == 1 || *kind == 3 {
+                mb = mb.server_streaming();
+            }
+            sb = sb.method(mb.build());
+        }
+        let svc = sb.build();
+        let mut b = tonic_build::CodeGenBuilder::new();
+        b.emit_package(*emit).use_arc_self(*arc).generate_default_stubs(*stubs);
+        if xi == 4 {
+            b.compile_well_known_types(true);
+            b.disable_comments(["x.Arks".to_string(), "x.Arks.M".to_string()].into_iter().collect());
+        }
+        let file = out.join(format!("c10x_{xi}.rs"));
+        let code = format!("{}\n", b.generate_server(&svc, "super"));
+        std::fs::write(&file, code).unwrap();
+        writeln!(x, "#[allow(non_camel_case_types, non_snake_case, unused_qualifications)]\npub mod x{xi} {{ include!({:?}); }}", file.to_str().unwrap()).unwrap();
+        let sn = naive_snake_case(name);
+        let slf = if *arc { "self: std::sync::Arc<Self>" } else { "&self" };
+        writeln!(x, "#[tonic::async_trait]\nimpl x{xi}::{sn}_server::{name} for {ty}::Handler {{").unwrap();
+        for (j, (route, kind)) in methods.iter().enumerate() {
+            let st = if *stubs { format!("{ty}::OutStream") } else { format!("Self::{route}Stream") };
+            let decl = if *stubs || *kind == 0 || *kind == 2 { String::new() } else { format!("  type {route}Stream = {ty}::OutStream;\n") };
+            match kind {
+                0 => writeln!(x, "  async fn m{j}({slf}, r: tonic::Request<{ty}::Req>) -> Result<tonic::Response<{ty}::Resp>, tonic::Status> {{ self.unary({i}, {j}, r) }}").unwrap(),
+                1 => writeln!(x, "{decl}  async fn m{j}({slf}, r: tonic::Request<{ty}::Req>) -> Result<tonic::Response<{st}>, tonic::Status> {{ self.server_streaming({i}, {j}, r) }}").unwrap(),
+                2 => writeln!(x, "  async fn m{j}({slf}, r: tonic::Request<tonic::Streaming<{ty}::Req>>) -> Result<tonic::Response<{ty}::Resp>, tonic::Status> {{ self.client_streaming({i}, {j}, r).await }}").unwrap(),
+                _ => writeln!(x, "{decl}  async fn m{j}({slf}, r: tonic::Request<tonic::Streaming<{ty}::Req>>) -> Result<tonic::Response<{st}>, tonic::Status> {{ self.streaming({i}, {j}, r).await }}").unwrap(),
+            }
+        }
+        writeln!(x, "}}").unwrap();
+    }
+    // declared table (what the user declared; the registered name follows the generator's documented rule)
+    writeln!(x, "pub const XPOOL: &[(&str, &str, &[(&str, u8)], bool)] = &[").unwrap();
+    for (pkg, name, methods, emit, _, _) in XPOOL {
+        writeln!(x, "  ({pkg:?}, {name:?}, &{methods:?}, {emit}),").unwrap();
+    }
+    writeln!(x, "];").unwrap();
+    // registration of an XPOOL server, by index into XPOOL
+    writeln!(x, "pub fn add_x(reg: &mut {ty}::Reg, xi: usize, wrap: {ty}::Wrap, h: {ty}::Handler) {{ match xi {{").unwrap();
+    for (xi, (_, name, _, _, _, _)) in XPOOL.iter().enumerate() {
+        let sn = naive_snake_case(name);
+        writeln!(x, "  {xi} => {ty}::add_wrapped(reg, x{xi}::{sn}_server::{name}Server::new(h.clone()), {}, wrap, h),", base + xi).unwrap();
+    }
+    writeln!(x, "  _ => panic!(\"xpool index\") }} }}").unwrap();
+    // the other constructors of the servers of the first pool
+    writeln!(x, "pub fn add_ctor(reg: &mut {ty}::Reg, i: usize, ctor: &str, h: {ty}::Handler) {{\n use tonic::codec::CompressionEncoding as CE;\n match i {{").unwrap();
+    for (i, (_, name, _)) in POOL.iter().enumerate() {
+        let sn = naive_snake_case(name);
+        let s = format!("{ty}::p{i}::{sn}_server::{name}Server");
+        writeln!(x, "  {i} => match ctor {{").unwrap();
+        writeln!(x, "    \"with-icept\" => {{ let h2 = h.clone(); super::add_boxed(reg, {s}::with_interceptor(h.clone(), move |r: tonic::Request<()>| {{ h2.enter({i}); Ok(r) }}), {i}, h) }}").unwrap();
+        writeln!(x, "    \"with-icept-fresh\" => {{ let h2 = h.clone(); super::add_boxed(reg, {s}::with_interceptor(h.clone(), move |_r: tonic::Request<()>| {{ h2.enter({i}); Ok(tonic::Request::new(())) }}), {i}, h) }}").unwrap();
+        writeln!(x, "    \"from-arc\" => {ty}::add_wrapped(reg, {s}::from_arc(std::sync::Arc::new(h.clone())), {i}, {ty}::Wrap::Probe, h),").unwrap();
+        writeln!(x, "    \"configured\" => {ty}::add_wrapped(reg, {s}::new(h.clone()).accept_compressed(CE::Gzip).send_compressed(CE::Gzip).accept_compressed(CE::Zstd).max_decoding_message_size(1 << 16).max_encoding_message_size(1 << 16), {i}, {ty}::Wrap::Probe, h),").unwrap();
+        writeln!(x, "    \"cloned\" => {{ let a = {s}::new(h.clone()); let b = a.clone(); drop(a); {ty}::add_wrapped(reg, b.clone(), {i}, {ty}::Wrap::Probe, h) }}").unwrap();
+        writeln!(x, "    _ => panic!(\"ctor\") }},").unwrap();
+    }
+    writeln!(x, "  _ => panic!(\"pool index\") }} }}").unwrap();
+    std::fs::write(out.join("c10x_pool.rs"), x).unwrap();
 }
